@@ -32,6 +32,7 @@ K_WRAP = "linkname:bound-thunk-receiver-package-dropped"
 K_ROUTINE = "linkname:routine-name-vs-user-closure"
 K_STUB = "linkname:stub-prefix-vs-package-path"
 K_LOCAL = "linkname:local-type-wrapper-scope-dropped"
+K_IFACEPKG = "descriptor:iface-pkgpath-of-compiling-package"
 PATCH = "github.com/goplus/llgo/runtime/internal/lib/"
 SYNTH = ("bound", "thunk", "wrapper", "local-bound", "local-thunk", "local-wrapper")
 MERGEABLE = {"linkonce", "linkonce_odr", "weak", "weak_odr", "common"}
@@ -54,49 +55,155 @@ OTHERS = ["func()", "struct{}", "func(int) string", "struct{X int}", "interface{
 IDENTS = ["M", "P", "C", "Get", "init", "main", "Val", "f", "_", "X_1", "方法", "String"]
 
 
-def gen_ty(rng, depth=0):
+# terms are trees: ("B", name) ("N", pkg, name, [targs], [scope]) ("P", t) ("S", t) ("A", n, t) ("M", k, v) ("C", dir, t) ("O", text)
+def gen_ty_tree(rng, depth=0):
     r = rng.random()
     if depth >= 4 or r < 0.25:
-        return "B " + hx(rng.choice(BASICS))
+        return ("B", rng.choice(BASICS))
     if r < 0.55:
         name = rng.choice(list(ARITY))
-        k = ARITY[name]
-        targs = " ".join(gen_ty(rng, depth + 1) for _ in range(k))
-        sc = [] if rng.random() < 0.7 else [rng.randint(0, 3) for _ in range(rng.randint(1, 3))]
-        return "N %s %s %d%s %d%s" % (hx(rng.choice(PKGS)), hx(name), k, (" " + targs) if k else "", len(sc), "".join(" %d" % i for i in sc))
+        sc = [] if rng.random() < 0.6 else [rng.randint(0, 3) for _ in range(rng.randint(1, 3))]
+        return ("N", rng.choice(PKGS), name, [gen_ty_tree(rng, depth + 1) for _ in range(ARITY[name])], sc)
     if r < 0.65:
-        return "P " + gen_ty(rng, depth + 1)
+        return ("P", gen_ty_tree(rng, depth + 1))
     if r < 0.73:
-        return "S " + gen_ty(rng, depth + 1)
+        return ("S", gen_ty_tree(rng, depth + 1))
     if r < 0.80:
-        return "A %d %s" % (rng.choice([0, 1, 3, 10, 255, 1024]), gen_ty(rng, depth + 1))
+        return ("A", rng.choice([0, 1, 3, 10, 255, 1024]), gen_ty_tree(rng, depth + 1))
     if r < 0.88:
-        return "M %s %s" % (gen_ty(rng, depth + 1), gen_ty(rng, depth + 1))
+        return ("M", gen_ty_tree(rng, depth + 1), gen_ty_tree(rng, depth + 1))
     if r < 0.94:
-        return "C %d %s" % (rng.randint(0, 2), gen_ty(rng, depth + 1))
-    return "O " + hx(rng.choice(OTHERS))
+        return ("C", rng.randint(0, 2), gen_ty_tree(rng, depth + 1))
+    return ("O", rng.choice(OTHERS))
 
 
-def gen_fn(rng):
+def ty_str(t):
+    k = t[0]
+    if k == "B":
+        return "B " + hx(t[1])
+    if k == "N":
+        return "N %s %s %d%s %d%s" % (hx(t[1]), hx(t[2]), len(t[3]), "".join(" " + ty_str(x) for x in t[3]), len(t[4]), "".join(" %d" % i for i in t[4]))
+    if k in ("P", "S"):
+        return k + " " + ty_str(t[1])
+    if k == "A":
+        return "A %d %s" % (t[1], ty_str(t[2]))
+    if k == "M":
+        return "M %s %s" % (ty_str(t[1]), ty_str(t[2]))
+    if k == "C":
+        return "C %d %s" % (t[1], ty_str(t[2]))
+    return "O " + hx(t[1])
+
+
+def other_of(rng, pool, x):
+    return rng.choice([y for y in pool if y != x])
+
+
+def scope_sibling(rng, sc):
+    sc = list(sc)
+    r = rng.random()
+    if not sc or r < 0.3:
+        return sc + [rng.randint(0, 3)]
+    if r < 0.5:
+        return sc[:-1]
+    i = rng.randrange(len(sc))
+    sc[i] = sc[i] + 1 + rng.randint(0, 2)
+    return sc
+
+
+def ty_sibling(rng, t):
+    """a DIFFERENT type term that differs from t in one place (possibly deep inside)"""
+    k = t[0]
+    if k == "B":
+        return ("B", other_of(rng, BASICS, t[1]))
+    if k == "N":
+        r = rng.random()
+        if t[3] and r < 0.5:
+            i = rng.randrange(len(t[3]))
+            return ("N", t[1], t[2], t[3][:i] + [ty_sibling(rng, t[3][i])] + t[3][i + 1:], t[4])
+        if r < 0.7:
+            return ("N", t[1], t[2], t[3], scope_sibling(rng, t[4]))
+        if r < 0.85:
+            return ("N", other_of(rng, PKGS, t[1]), t[2], t[3], t[4])
+        return ("N", t[1], other_of(rng, [n for n in ARITY if ARITY[n] == len(t[3])] + [t[2] + "x"], t[2]), t[3], t[4])
+    if k in ("P", "S"):
+        return (k, ty_sibling(rng, t[1])) if rng.random() < 0.7 else ("S" if k == "P" else "P", t[1])
+    if k == "A":
+        return ("A", t[1], ty_sibling(rng, t[2])) if rng.random() < 0.5 else ("A", t[1] + 1, t[2])
+    if k == "M":
+        return ("M", ty_sibling(rng, t[1]), t[2]) if rng.random() < 0.5 else ("M", t[1], ty_sibling(rng, t[2]))
+    if k == "C":
+        return ("C", t[1], ty_sibling(rng, t[2])) if rng.random() < 0.5 else ("C", (t[1] + 1) % 3, t[2])
+    return ("O", other_of(rng, OTHERS, t[1]))
+
+
+# fn: ("F", pkg, name) | ("M", pkg, recv, [targs], ptr, name)
+def gen_fn_tree(rng):
     pkg = rng.choice(PKGS)
     if rng.random() < 0.35:
-        return "F %s %s" % (hx(pkg), hx(rng.choice(IDENTS + list(ARITY))))
+        return ("F", pkg, rng.choice(IDENTS + list(ARITY)))
     recv = rng.choice(list(ARITY))
-    k = ARITY[recv]
-    targs = "".join(" " + gen_ty(rng, 2) for _ in range(k))
-    return "M %s %s %d%s %d %s" % (hx(pkg), hx(recv), k, targs, rng.randint(0, 1), hx(rng.choice(IDENTS)))
+    return ("M", pkg, recv, [gen_ty_tree(rng, 2) for _ in range(ARITY[recv])], rng.randint(0, 1), rng.choice(IDENTS))
 
 
-def gen_wn(rng):
-    """receiver of a synthetic function: any package (also another one than the compiled package), maybe function-local"""
+def fn_str(f):
+    if f[0] == "F":
+        return "F %s %s" % (hx(f[1]), hx(f[2]))
+    return "M %s %s %d%s %d %s" % (hx(f[1]), hx(f[2]), len(f[3]), "".join(" " + ty_str(x) for x in f[3]), f[4], hx(f[5]))
+
+
+def fn_sibling(rng, f):
+    if f[0] == "F":
+        return ("F", other_of(rng, PKGS, f[1]), f[2]) if rng.random() < 0.5 else ("F", f[1], other_of(rng, IDENTS, f[2]))
+    r = rng.random()
+    if f[3] and r < 0.4:
+        i = rng.randrange(len(f[3]))
+        return ("M", f[1], f[2], f[3][:i] + [ty_sibling(rng, f[3][i])] + f[3][i + 1:], f[4], f[5])
+    if r < 0.55:
+        return ("M", other_of(rng, PKGS, f[1]), f[2], f[3], f[4], f[5])
+    if r < 0.7:
+        return ("M", f[1], f[2], f[3], 1 - f[4], f[5])
+    if r < 0.85:
+        return ("M", f[1], f[2], f[3], f[4], other_of(rng, IDENTS, f[5]))
+    return ("M", f[1], other_of(rng, [n for n in ARITY if ARITY[n] == len(f[3])] + [f[2] + "x"], f[2]), f[3], f[4], f[5])
+
+
+# wn: (cur, name, pkg, recv, [targs], [scope], ptr): receiver of a synthetic function - any package (also another one
+# than the compiled package), maybe function-local
+def gen_wn_tree(rng):
     recv = rng.choice(list(ARITY))
-    k = ARITY[recv]
-    targs = "".join(" " + gen_ty(rng, 2) for _ in range(k))
-    sc = [] if rng.random() < 0.6 else [rng.randint(0, 3) for _ in range(rng.randint(1, 3))]
     pkg = rng.choice(PKGS)
     cur = pkg if rng.random() < 0.4 else rng.choice(PKGS)
-    name = rng.choice(IDENTS) + rng.choice(["", "$bound", "$thunk"])
-    return "%s %s %s %s %d%s %d%s %d" % (hx(cur), hx(name), hx(pkg), hx(recv), k, targs, len(sc), "".join(" %d" % i for i in sc), rng.randint(0, 1))
+    sc = [] if rng.random() < 0.6 else [rng.randint(0, 3) for _ in range(rng.randint(1, 3))]
+    return (cur, rng.choice(IDENTS) + rng.choice(["", "$bound", "$thunk"]), pkg, recv, [gen_ty_tree(rng, 2) for _ in range(ARITY[recv])], sc, rng.randint(0, 1))
+
+
+def wn_str(w):
+    return "%s %s %s %s %d%s %d%s %d" % (hx(w[0]), hx(w[1]), hx(w[2]), hx(w[3]), len(w[4]), "".join(" " + ty_str(x) for x in w[4]), len(w[5]), "".join(" %d" % i for i in w[5]), w[6])
+
+
+def wn_sibling(rng, w):
+    """same compiled package, a different (receiver type, method)"""
+    r = rng.random()
+    if r < 0.3:
+        return (w[0], w[1], other_of(rng, PKGS, w[2]), w[3], w[4], w[5], w[6])
+    if r < 0.55:
+        return (w[0], w[1], w[2], w[3], w[4], scope_sibling(rng, w[5]), w[6])
+    if r < 0.7:
+        return (w[0], w[1], w[2], w[3], w[4], w[5], 1 - w[6])
+    if w[4] and r < 0.9:
+        i = rng.randrange(len(w[4]))
+        return (w[0], w[1], w[2], w[3], w[4][:i] + [ty_sibling(rng, w[4][i])] + w[4][i + 1:], w[5], w[6])
+    return (w[0], other_of(rng, IDENTS, w[1].split("$")[0]) + ("$" + w[1].split("$")[1] if "$" in w[1] else ""), w[2], w[3], w[4], w[5], w[6])
+
+
+CANON = [(hx("byte"), hx("uint8")), (hx("rune"), hx("int32")), (PATCH.encode().hex(), "")]
+
+
+def canon(term):
+    """identify what Go / llgo identify on purpose: byte = uint8, rune = int32, a patched package IS the package it patches"""
+    for a, b in CANON:
+        term = re.sub(r"(?<![0-9a-f])" + a + r"(?![0-9a-f])", b, term) if b else term.replace(a, b)
+    return term
 
 
 WITNESS_WN = "%s %s %s %s 0 0 0" % ("m".encode().hex(), "M$bound".encode().hex(), "m/a".encode().hex(), "T".encode().hex())
@@ -320,16 +427,24 @@ def run(ctx, args):  # noqa: C901
               "ty C 0 C 2 B " + hx("int"), "ty N %s %s 1 N %s %s 0 2 1 0 0" % (hx("m/a"), hx("Box"), hx("m/b"), hx("L")),
               "gl G %s %s" % (hx("m/a.B"), hx("C")), "ty M B %s P N %s %s 0 0" % (hx("string"), hx("m/b"), hx("L"))]
     reqs += corpus
+    sibling_of = {}        # index of a request -> index of its sibling request (a different entity by construction)
     for i in range(n):
         k = i % 10
         if k < 5:
-            reqs.append("ty " + gen_ty(rng))
+            t = gen_ty_tree(rng)
+            pair = ("ty " + ty_str(t), "ty " + ty_str(ty_sibling(rng, t)))
         elif k < 7:
-            reqs.append("fn " + gen_fn(rng))
+            t = gen_fn_tree(rng)
+            pair = ("fn " + fn_str(t), "fn " + fn_str(fn_sibling(rng, t)))
         elif k < 9:
-            reqs.append("wn " + gen_wn(rng))
+            t = gen_wn_tree(rng)
+            pair = ("wn " + wn_str(t), "wn " + wn_str(wn_sibling(rng, t)))
         else:
-            reqs.append("gl G %s %s" % (hx(rng.choice(PKGS)), hx(rng.choice(IDENTS))))
+            pair = ("gl G %s %s" % (hx(rng.choice(PKGS)), hx(rng.choice(IDENTS))), None)
+        reqs.append(pair[0])
+        if pair[1] is not None and (i % 2 == 0 or not quick):
+            sibling_of[len(reqs) - 1] = len(reqs)
+            reqs.append(pair[1])
     real, rc, err = run_lines([harness], reqs)
     if len(real) != len(reqs):
         raise HarnessBuildError("harness died on the constructed route: %d/%d answers\n%s" % (len(real), len(reqs), err[-2000:]))
@@ -349,29 +464,38 @@ def run(ctx, args):  # noqa: C901
             # synthetic functions: (compiled package, name) must determine receiver type and method
             byname.setdefault((op, q.split(" ")[1] + ":" + r.split(" ")[1]), set()).add(q[3:])
     samples.append({"request": reqs[len(corpus) + 1], "real": real[len(corpus) + 1], "decoded": [uh(x) for x in real[len(corpus) + 1].split(" ")[1:]]})
-    # spec on the real answers: two different terms never share a rendered name
-    for (op, name), terms in sorted(byname.items()):
-        terms = sorted(set(t.replace(PATCH.encode().hex(), "") for t in terms))   # a patched package IS the package it patches
+    # spec on the real answers, independent of the model: two different terms never share a rendered name.
+    # (1) every request against its sibling - a term that differs in ONE place (a nested scope index, a package path, the
+    # pointer marker, one type argument ...): the failing input is the pair; (2) all requests grouped by rendered name.
+    def judge_pair(op, terms, name):
+        terms = sorted(set(canon(t) for t in terms))
         if len(terms) < 2:
-            continue
-        if op == "ty":
-            # `byte`/`uint8`-style aliases of the universe are the same type; opaque `O` texts and `B` names can coincide only by construction
-            canon = set(re.sub(r"\bB (62797465|75696e7438)\b", "B u8", re.sub(r"\bB (72756e65|696e743332)\b", "B i32", t)) for t in terms)
-            if len(canon) < 2:
-                continue
+            return
         paths = [p for t in terms for p in term_paths(t)]
         if op == "wn":
-            cur_h, name = name.split(":")
             paths = [uh(x) for t in terms for x in t.split(" ")[0:3:2]]
-        what = "%s: %d different terms rendered as %r by the real code: %s" % (op, len(terms), uh(name), terms[:3])
+        what = "%s: %d different terms are rendered as %r by the real code: %s" % (op, len(terms), uh(name), terms[:3])
         spec_failures.append(what)
         if op == "wn" and cfg == 0:
-            # legacy naming: the receiver's package and scope are not in the name
+            # naming as pinned before fixes/C14-1.diff: the receiver's package and scope are not in the name
             ctx.report(K_LOCAL if len(set(t.split(" ")[2] for t in terms)) == 1 else K_WRAP, what, {"terms": terms, "name": uh(name)})
         elif any(dotted_last(p) for p in paths):
             ctx.report(K_DOT, what, {"terms": terms, "name": uh(name)})
         else:
-            report_capped("constructed", "linkname:collision:" + uh(name), what, {"terms": terms, "name": uh(name)})
+            report_capped("constructed", "linkname:collision:" + uh(name), what, {"terms": terms, "name": uh(name), "decoded": [" ".join(uh(x) if re.fullmatch(r"([0-9a-f]{2}){2,}", x) else x for x in t.split(" ")) for t in terms]})
+
+    npairs = 0
+    for i, j in sibling_of.items():
+        if real[i].startswith("ok ") and real[j].startswith("ok "):
+            npairs += 1
+            same_cur = not reqs[i].startswith("wn ") or reqs[i].split(" ")[1] == reqs[j].split(" ")[1]
+            if same_cur and real[i].split(" ")[1] == real[j].split(" ")[1]:
+                judge_pair(reqs[i].split(" ")[0], [reqs[i][3:], reqs[j][3:]], real[i].split(" ")[1])
+    stats["constructed-sibling-pairs"] = npairs
+    for (op, name), terms in sorted(byname.items()):
+        if op == "wn":
+            name = name.split(":")[1]
+        judge_pair(op, terms, name)
 
     ctx.log("constructed route: %d requests, %d mismatches" % (len(reqs), len(mismatches)))
     # ---------------------------------------------------------------- programs
@@ -420,7 +544,10 @@ def run(ctx, args):  # noqa: C901
             names = set(nm for (_, nm, _) in r["cols"])
             if len(names) > 1:
                 stats["context-dependent-" + r["kind"]] = stats.get("context-dependent-" + r["kind"], 0) + 1
-                if r["kind"] not in SYNTH:
+                inst_wrapper = r["kind"] == "wrapper" and r["term"].split(" ")[4] != "0"
+                # (wrappers for methods of an INSTANTIATED generic type are referenced by the method table of every
+                #  package under one name, like declared functions; $bound/$thunk and other wrappers are per package)
+                if r["kind"] not in SYNTH or inst_wrapper:
                     spec_failures.append("referring packages disagree on the name of %s: %s" % (r["str"], sorted(names)))
                     report_capped("ctx", "linkname:context-dependent:" + r["str"], "referring packages disagree on a name", {"entity": r["str"], "names": sorted(map(str, names)), "files": files})
             owner = (term_paths(r["term"]) or [None])[0]
@@ -476,15 +603,14 @@ def run(ctx, args):  # noqa: C901
     ts = [spawn("dotted", lambda: compile_tree("dotted", order2)), spawn("wrapper", lambda: compile_tree("wrapper", order3)),
           spawn("linkname", lambda: compile_tree("linkname", order4, want_ref=False))]
     stats["e2e-modules"] = len(mods)
-    if p.returncode != 0:
-        msg = (p.stdout + p.stderr)[-3000:]
-        mm = re.search(r"multiple definition of '([^']*)'|duplicate symbol[: ]+'?([^'\n]*)", msg)
-        what = "llgo could not build the generated multi-package program: " + (mm.group(0) if mm else msg[-400:])
-        spec_failures.append(what)
-        ctx.report("linkname:main-program-build:" + (mm.group(0) if mm else "failed"), what, {"files": f1, "output": msg})
-    elif len(mods) != len(order1):
-        ctx.broken.append("e2e: IR modules of the generated packages not found (-gen-llfiles)")
-        ctx.report_broken("e2e symbol tables", "found %d IR modules for %d generated packages under %s" % (len(mods), len(order1), os.path.join(ctx.llgo_dir, "xdg", "go-build")))
+    # the symbol tables are judged whenever every package was compiled to IR - also when the LINK failed (an undefined
+    # or doubly defined symbol is then reported as the concrete pair of modules / entities, not as "build failed")
+    build_msg = (p.stdout + p.stderr)[-3000:] if p.returncode != 0 else None
+    reports_before = len(ctx.violations) + len(ctx.known_hits)
+    if len(mods) != len(order1):
+        if build_msg is None:
+            ctx.broken.append("e2e: IR modules of the generated packages not found (-gen-llfiles)")
+            ctx.report_broken("e2e symbol tables", "found %d IR modules for %d generated packages under %s" % (len(mods), len(order1), os.path.join(ctx.llgo_dir, "xdg", "go-build")))
     else:
         defs = {}      # name -> [(module, linkage, body)]
         for m in mods:
@@ -533,6 +659,15 @@ def run(ctx, args):  # noqa: C901
                 report_capped("e2e-duplicate-strong", "linkname:e2e-duplicate-strong:" + nm, what, {"symbol": nm, "files": f1})
                 continue
             bodies = set(m.normalise(b) for (m, _, b) in lst)
+            if len(bodies) > 1 and nm.startswith("_llgo_iface$"):
+                # descriptor of an unnamed interface type: equal up to the PkgPath_ string = the module that emitted it?
+                mods_re = "|".join(re.escape(x) for x in sorted(genpaths, key=len, reverse=True))
+                b2 = set(re.sub(r'\[\d+ x i8\] c"(%s)", align 1\}, i64 \d+' % mods_re, "<pkgpath of the emitting module>", x) for x in bodies)
+                if len(b2) == 1:
+                    what = "mergeable interface descriptor %r differs between modules %s only in its PkgPath_ field (each module writes its own path)" % (nm, [m.id for (m, _, _) in lst])
+                    spec_failures.append(what)
+                    ctx.report(K_IFACEPKG, what, {"symbol": nm, "bodies": sorted(bodies)[:2]})
+                    continue
             if len(bodies) > 1:
                 bl = sorted(bodies)
                 what = "mergeable symbol %r has %d different bodies in modules %s" % (nm, len(bodies), [m.id for (m, _, _) in lst])
@@ -578,7 +713,9 @@ def run(ctx, args):  # noqa: C901
         stats["e2e-names-compared-with-inproc"] = e2e_vs
         n_eval += e2e_vs
         # output
-        if ref is None or out is None or out[1] != ref[1] or out[2] != ref[2]:
+        if build_msg is not None:
+            pass
+        elif ref is None or out is None or out[1] != ref[1] or out[2] != ref[2]:
             a = out[1].split("\n") if out else []
             b = ref[1].split("\n") if ref else []
             k = next((j for j in range(min(len(a), len(b))) if a[j] != b[j]), min(len(a), len(b)))
@@ -589,6 +726,11 @@ def run(ctx, args):  # noqa: C901
             stats["e2e-output-lines-equal"] = len(out[1].split("\n"))
         samples.append({"symbol": sorted(id2names.get(progs.ID0 + 4, ["?"]))[0], "entity": ids1.info.get(progs.ID0 + 4)})
 
+    if build_msg is not None and len(ctx.violations) + len(ctx.known_hits) == reports_before:
+        mm = re.search(r"multiple definition of '([^']*)'|duplicate symbol[: ]+'?([^'\n]*)|undefined (?:reference to|symbol:?) [`']?([^'\n]*)", build_msg)
+        what = "llgo could not build the generated multi-package program: " + (mm.group(0) if mm else build_msg[-400:])
+        spec_failures.append(what)
+        ctx.report("linkname:main-program-build:" + (mm.group(0) if mm else "failed"), what, {"files": f1, "output": build_msg})
     ctx.log("main program judged")
     # --- dotted last path element (known finding): duplicate symbol at link time
     p, mods, out, ref = joined(ts[0], "dotted")
